@@ -79,6 +79,7 @@ THEOREMS = [
     "XalanModel.Props.C12.walk_namespace_eq_def",
     "XalanModel.Props.C12.walkShapes_unchanged",
     "XalanModel.Props.C12.buildersFlushBeforeCreate",
+    "XalanModel.Props.C12.wrapperNodesAreMapped",
     "XalanModel.Props.C12.reverseAxes",
     "XalanModel.Props.C12.reverseAxis_position",
     "XalanModel.Props.C12.treeLocationPath_sortedSet",
@@ -236,6 +237,14 @@ class Oracle:
                         "rep=%s doc=%s isNodeAfter(%d,%d)=%s for an ancestor/descendant pair (%d such pairs wrong)" % (
                             self.rep, self.docs[d][0], a, b, got, len(bad_rel)))
             return None
+        if op in ("identity", "nodesets"):
+            if not reply.startswith(op + " ok"):
+                return ("identity", "rep=%s %s -> %s" % (self.rep, req, reply))
+            if "docLastChild=BAD" in reply:
+                return ("document-lastchild", "rep=%s %s: the document node's getLastChild() is not its last child: %s" % (self.rep, req, reply))
+            return None
+        if op == "xmldoc":
+            return None if reply.startswith("xmldoc n=") else ("xmldoc", "%s -> %s" % (req[:60], reply))
         if op == "build":
             if not reply.startswith("built "):
                 return None if reply.startswith("ERR") else ("build-reply", "%s -> %s" % (req, reply))
@@ -396,6 +405,13 @@ def make_sessions(r, nsessions, maxnodes, nhist, maxops, nxp, avoid_lt_on_n=Fals
         sizes = {d: len(g.parse_shape(sh, rep)[0]) for d, sh in shapes.items()}
         for d in shapes:
             s.cases.append(("afterall", ["afterall %d" % d]))
+            # node identity: every node reached by several navigation routes is ONE object; whole-document node-sets are sets
+            s.cases.append(("identity", ["identity %d" % d, "nodesets %d" % d]))
+        for k in range(2):
+            xml = g.gen_rich_xml(r, r.range(4, 14))
+            flags = " r" if (rep != "S" and r.chance(1, 2)) else ""
+            s.cases.append(("identity", ["xmldoc %d %s%s" % (200 + k, xml.encode().hex(), flags), "identity %d" % (200 + k),
+                                         "nodesets %d" % (200 + k)]))
         # one location step per axis from context nodes of every kind (document, element, attribute, namespace
         # declaration, text, comment, PI): the transcribed walks against the real axis functions
         for d in (shapes if (nsessions <= 2000 or si % 3 == 0) else []):      # thorough tier: every third session
@@ -910,6 +926,7 @@ def run(ctx):
     flavor = os.environ.get("VERIF_C12_FLAVOR", "hooks")
     ctx.extra["flavor"] = flavor
     ctx.build(flavor)
+    ctx.translate("c12_nodemap")     # every createWrapperNode overload registers its wrapper in m_nodeMap (wrapperNodesAreMapped)
     ctx.translate("c12_flush")       # both source-tree builders flush buffered text before creating a node (buildersFlushBeforeCreate)
     ctx.translate("c12_walks")       # loop skeletons of the axis walks -> Generated/C12_WalkShapes.lean (walkShapes_unchanged)
     ctx.lean("XalanModel.Props.C12", THEOREMS, extra_targets=["xm_c12"])
@@ -1004,7 +1021,7 @@ def run(ctx):
             d = int(cl[0].split()[1])
             nontriv = len(g.parse_shape(s.shapes[d], s.rep)[0]) >= 4
             text = s.rep + "|" + s.shapes[d] + "|afterall"
-        elif kind in ("axis", "build"):
+        elif kind in ("axis", "build", "identity"):
             nontriv = True
         elif kind.startswith("hist"):
             nontriv = sum(1 for x in cl if x.startswith("add")) >= 3
